@@ -175,3 +175,11 @@ Theorem C03_msg_history_seq : forall id gbk d r ver body, reach id gbk d r -> ve
   parse_msg id gbk ver d r body = parse_msg id gbk ver d (VL []) body.
 Proof. exact parse_msg_history_seq. Qed.
 Print Assumptions C03_msg_history_seq.
+
+(* ---- "either returns an error or returns a value": for a modelled message id the only error is
+        the length error (protocol.ErrBodyLengthInconsistency); the model's internal error numbers
+        (unknown id, out of fuel) are never the answer ---- *)
+Theorem C03_msg_only_length_error : forall id gbk ver d r body e, mem id modelled_ids = true ->
+  parse_msg id gbk ver d r body = Err e -> e = E_LEN.
+Proof. exact parse_msg_only_len. Qed.
+Print Assumptions C03_msg_only_length_error.
